@@ -14,6 +14,8 @@ import base64, concurrent.futures, json, os, re
 from vlib.proto import hexs, unhex
 
 HARNESS = "api_life"
+# a leak report is symbolized by an external process per frame batch: keep it short
+ENV = {"LSAN_OPTIONS": "exitcode=96:max_leaks=2"}
 NSLOT = 6
 NSETS = 3
 FORCE_LSAN = 0x40000000
@@ -1727,12 +1729,12 @@ def _bucket(n):
 def _run_parallel(cx, lines, workers):
     """several harness processes; every history runs in its own forked child anyway, so the split does not change results"""
     if workers <= 1 or len(lines) < 4 * workers:
-        return cx.run_impl(HARNESS, lines, component="life")
+        return cx.run_impl(HARNESS, lines, component="life", env=ENV)
     chunks = [lines[i::workers] for i in range(workers)]
     cx.harness(HARNESS)     # build once, outside the threads
     out = {}
     with concurrent.futures.ThreadPoolExecutor(workers) as ex:
-        for r in ex.map(lambda c: cx.run_impl(HARNESS, c, component="life"), chunks):
+        for r in ex.map(lambda c: cx.run_impl(HARNESS, c, component="life", env=ENV), chunks):
             out.update(r)
     return out
 
